@@ -44,6 +44,8 @@ var c03Dup = [][2]string{
 var c03Pieces = []string{
 	"a", "Hello", " ", "  ", "\n", "\r\n", "\t", "é", "中文", "😀", "ß", "{", "}", "%", "#", "}}", "%}", "#}", "'", "\"", "<b>", "&amp;", "\\", "|", "-", "{ {", "} }", "% }", "{ %", "{ #",
 	"x", "0", "endif", "if", "{\n{", "text with spaces", ".", "$", "\x7f", " ", "-}}", "-%}", "~", "`",
+	// bytes that are no text to some: NUL, invalid and truncated UTF-8, a lone CR, escape, byte order marks, separators
+	"\x00", "\x00\x00", "\xff", "\xfe\xff", "\xc3", "\xe2\x82", "\xed\xa0\x80", "\xc0\xaf", "\r", "\x1b[0m", "\ufeff", "\u2028", "\u0085", "\u200f", "e\u0301", "\x01", "\x1a", "\x0c",
 }
 
 // chunk builds a literal text chunk that contains no opening delimiter and does
